@@ -119,6 +119,9 @@ def block_table(thorough):
           B("VecToStream<u8>", {}, "bytes", 12, extra={"packets": [[1] * 3000, [2] * 2000, [3] * 1500, [4] * 10, [5] * 4000]}),
           B("HdlcDeframer", {"min": 1, "max": 30}, "bits_runs", 200),
           B("Il2pDeframer", {}, "bits", 200),
+          # with frame sync marks: the 120 header bits after a mark arrive in any number of pieces
+          B("Il2pDeframer", {}, "bits", 700, extra={"force_tags": "sync"}),
+          B("Il2pDeframer", {}, "bits", 400, extra={"force_tags": "sync"}),
           B("AuEncode", {"rate": 8000}, "small", 40),
           B("AuDecode", {"rate": 8000}, "bytes", 100, extra={"allow_err": True}),
           # well-formed AU streams (28- and 40-byte headers), so that the header states are passed in pieces
